@@ -73,6 +73,8 @@ def accept_table(arms: List[ast.If], types: List[str], states: List[str], enum: 
 
 
 def run(ctx: Ctx) -> None:
+    if getattr(ctx, "_depth", 0) >= 2:
+        return  # alias of an alias: not followed (breaks import cycles between rule modules)
     repo = ctx.repo
     ctx.rule("C12.R1", "state-guarded dispatch: each (message type, state) pair is accepted exactly when the ASGI reference automaton allows it; everything else reaches the final `else: raise UnexpectedMessageError`", floor=40)
     ctx.rule("C12.R4", "every application-supplied header list that reaches a wire event (Response / InformationalResponse / Trailers / Request) passes through build_and_validate_headers", floor=6)
@@ -152,8 +154,13 @@ def run(ctx: Ctx) -> None:
         ("CR/LF in value rejected", [(b"a", b"v\r\nset-cookie: x=1")], "raise"),
         ("LF in name rejected", [(b"a\nb", b"v")], "raise"),
         ("NUL in value rejected", [(b"a", b"v\x00w")], "raise"),
+        ("headers given as a one-shot iterator are all kept (single pass)", "ITER", [(b"a", b"b"), (b"c", b"d")]),
+        ("bytearray / memoryview values become bytes", [(bytearray(b"a"), bytearray(b"b"))], [(b"a", b"b")]),
+        ("order and repeats preserved", [(b"set-cookie", b"a=1"), (b"x", b"1"), (b"set-cookie", b"b=2")], [(b"set-cookie", b"a=1"), (b"x", b"1"), (b"set-cookie", b"b=2")]),
     ]
     for label, inp, want in cases:
+        if inp == "ITER":
+            inp = iter([(b"a", b"b"), (b"c", b"d")])
         try:
             got = eval_function(bv, {"headers": inp})
             got_r = got
